@@ -543,4 +543,58 @@ theorem last_ckpt_is_current (k : Kit P S) (cfg : SmcCfg S) (zero : S) (p0 : P) 
   rw [List.take_append_drop] at h4'
   exact ⟨stc, by rw [← hm]; exact h4', h5⟩
 
+/-! ## 13. file + resume together, and concrete instances -/
+
+/-- CAPSTONE: sample with a checkpoint file, interrupt after any number `j` of steps at a point
+    where at least one checkpoint has been written; then the file holds the configuration, a
+    proposal, and a payload that the loader decodes to the most recent checkpoint `c` of the log;
+    and resuming from `c` finishes with the evidence, error, final population, history, iteration
+    count and temperature of the uninterrupted run. -/
+theorem file_resume (k : Kit P S) (cfg : SmcCfg S) (zero : S) (p0 : P) (steps : List (Step P))
+    (enc : Ckpt P S → Bytes) (dec : Bytes → Option (Ckpt P S)) (hdec : ∀ c, dec (enc c) = some c)
+    (f0 : CkptFile C F) (conf : C) (flow : F)
+    {r : Result P S} (hfull : run k cfg zero p0 steps = .done r) (j : Nat)
+    {cks : List (Ckpt P S)} (hint : run k cfg zero p0 (steps.take j) = .interrupted cks)
+    (hne : cks ≠ []) :
+    let f := writeAll (writeHeader f0 conf flow) (cks.map enc)
+    f.config = some conf ∧ f.flow.isSome = true ∧
+    ∃ c, cks.getLast? = some c ∧ f.ckpt = some (enc c) ∧ loadCkpt dec f = some c ∧
+      ∃ r', resume k cfg c steps = .done r' ∧ r'.logZ = r.logZ ∧ r'.logZerr = r.logZerr ∧
+        r'.pop = r.pop ∧ r'.st.hist = r.st.hist ∧ r'.st.iter = r.st.iter ∧ r'.st.beta = r.st.beta := by
+  intro f
+  obtain ⟨c, hc⟩ : ∃ c, cks.getLast? = some c := by
+    cases h : cks.getLast? with
+    | none => exact (hne (List.getLast?_eq_none_iff.mp h)).elim
+    | some c => exact ⟨c, rfl⟩
+  obtain ⟨h1, h2, h3, h4, h5⟩ := file_contents enc dec hdec f0 conf flow cks hc
+  refine ⟨h1, ?_, c, hc, h4, h5, resume_eq k cfg zero p0 steps hfull j hint hc⟩
+  cases h0 : f0.flow with
+  | none => rw [h2 h0]; rfl
+  | some fl => rw [h3 fl h0]; rfl
+
+/-- an interruption before the first checkpoint leaves the checkpoint dataset as it was -/
+theorem file_no_ckpt (f : CkptFile C F) : writeAll f [] = f := rfl
+
+/-- payload sizes growing and shrinking: the dataset always equals the last payload -/
+example : (writeAll ({} : CkptFile Nat Nat) [[1, 2, 3], [4], [5, 6, 7, 8], [9, 9]]).ckpt = some [9, 9] := by
+  decide
+example : (writeAll ({} : CkptFile Nat Nat) [[1, 2, 3], [4], [5, 6, 7, 8]]).ckpt = some [5, 6, 7, 8] := by
+  decide
+example : (writeAll (writeHeader ({ flow := some 3 } : CkptFile Nat Nat) 1 2) [[1, 2, 3], [4]])
+    = { config := some 1, flow := some 3, ckpt := some [4] } := by decide
+
+/-- cadence 1: three iterations, checkpoints at 1, 2, 3 and the forced one -/
+example : (logOf (run kitN cfgN 0 5 stepsN)).map (·.iter) = [1, 2, 3, 3] := by decide
+/-- cadence 2: three iterations, checkpoint at 2 and the forced one (taken after the enlargement) -/
+example : (logOf (run kitN cfgN2 0 5 stepsN)).map (·.iter) = [2, 3] ∧
+    (logOf (run kitN cfgN2 0 5 stepsN)).map (·.pop) = [20, 7] := by decide
+/-- cadence 2, interrupted after 1, 2, 3 steps: nothing, then the checkpoint of iteration 2 -/
+example : (logOf (run kitN cfgN2 0 5 (stepsN.take 1))).map (·.iter) = [] ∧
+    (logOf (run kitN cfgN2 0 5 (stepsN.take 2))).map (·.iter) = [2] ∧
+    (logOf (run kitN cfgN2 0 5 (stepsN.take 3))).map (·.iter) = [2] := by decide
+/-- the hypotheses of `cadence`, `last_ckpt_is_current` and `file_resume` are met -/
+example : ∃ r, run kitN cfgN2 0 5 stepsN = .done r ∧ cfgN2.every = some 2 := ⟨_, rfl, rfl⟩
+example : ∃ cks, run kitN cfgN2 0 5 (stepsN.take 3) = .interrupted cks ∧ cks ≠ [] ∧ 3 ≤ stepsN.length :=
+  ⟨_, rfl, by simp, by decide⟩
+
 end C12
